@@ -232,12 +232,20 @@ def main(argv=None):
         print('  %s: %s [%s]' % (v['key'], v['msg'], v['where']))
         print('VIOLATION property=%s replay=%s' % (prop, rp))
         status = 1
+    # Two kinds of "could not decide".  A rule that meets a shape outside its idiom tables says so (INCONCLUSIVE line,
+    # recorded in the evidence) but does not fail the check: the interface knows "held on everything explored" (0) and
+    # "violation" (1), and nothing that was explored is violated.  Only when the checker itself could not run -- the
+    # extraction failed, no rule module, an internal error (rule '-') -- is the exit code 2.
+    soft = False
     for i in ctx.inconclusives:
         print('INCONCLUSIVE property=%s rule=%s reason=%s' % (prop, i['rule'], i['reason']))
-        if status == 0:
-            status = 2
+        if i['rule'] == '-':
+            if status == 0:
+                status = 2
+        else:
+            soft = True
     for n in ctx.notes:
-        if a.verbose or status == 2:
+        if a.verbose or status == 2 or soft:
             print('NOTE', n)
 
     wall = time.time() - t0
@@ -246,7 +254,7 @@ def main(argv=None):
     tot = sum(o[0] for o in ctx.obligations.values())
     dis = sum(o[1] for o in ctx.obligations.values())
     print('%s property=%s tier=%s obligations=%d discharged=%d instances=%d wall=%.1fs' % (
-        {0: 'PASS', 1: 'FAIL', 2: 'INCONCLUSIVE'}[status], prop, a.tier, tot, dis,
+        {0: 'PASS' if not soft else 'PASS-INCONCLUSIVE', 1: 'FAIL', 2: 'INCONCLUSIVE'}[status], prop, a.tier, tot, dis,
         sum(len(v) for v in ctx.instances.values()), wall))
     return status
 
